@@ -91,6 +91,8 @@ class PddlText:
     def term(self, ty, scope):
         """a term of (a subtype of) ty: variable in scope or object"""
         c = [v for v, t in scope.items() if (not self.typed) or t == ty or (ty == "item" and t == "crate")]
+        if ty == "crate":
+            c = [v for v, t in scope.items() if t == "crate"]
         objs = self.objects_of(ty)
         if c and (self.rng.random() < 0.7 or not objs):
             return self.rng.choice(c)
@@ -173,8 +175,10 @@ class PddlText:
         if q < 0.9 and self.typed:
             kind = r.choice(["exists", "forall"])
             self.reqs.add(":existential-preconditions" if kind == "exists" else ":universal-preconditions")
-            v = "?q%d" % r.randint(0, 9)
-            t = r.choice(["loc", "item"])
+            # few names, reused across actions with different (sub/super) types: a reader must not let the first
+            # `?x - crate` decide the type of a later `?x - item`
+            v = r.choice(["?x", "?y"])
+            t = r.choice(["loc", "item"] + (["crate", "crate"] if self.subtype else []))
             sc = dict(scope)
             sc[v] = t
             return "(%s (%s - %s) %s)" % (kind, v, t, self.gen_cond(depth - 1, sc))
@@ -321,3 +325,43 @@ class PddlText:
         if self.metric:
             out.append(" " + self.metric)
         return "\n".join(out) + "\n)\n"
+
+
+def corpus_texts():
+    """hand-written corner texts (run first): the same quantified variable name with a subtype in one action and the
+    supertype in another (both orders, forall and exists), in preconditions"""
+    out = []
+    for first, second in (("dog", "animal"), ("animal", "dog")):
+        for q in ("forall", "exists"):
+            body = "(fed ?x)" if q == "forall" else "(not (fed ?x))"
+            dom = """(define (domain zoo-%s-%s)
+ (:requirements :strips :typing :negative-preconditions :universal-preconditions :existential-preconditions)
+ (:types dog - animal animal)
+ (:predicates (fed ?a - animal) (done1) (done2))
+ (:action a1
+  :parameters ()
+  :precondition (%s (?x - %s) %s)
+  :effect (and (done1)))
+ (:action a2
+  :parameters ()
+  :precondition (%s (?x - %s) %s)
+  :effect (and (done2)))
+ (:action feed
+  :parameters (?d - dog)
+  :precondition (and )
+  :effect (and (fed ?d)))
+ (:action starve
+  :parameters (?b - animal)
+  :precondition (fed ?b)
+  :effect (and (not (fed ?b))))
+)
+""" % (q, first, q, first, body, q, second, body)
+            prob = """(define (problem zoo-p) (:domain zoo-%s-%s)
+ (:requirements :strips :typing :negative-preconditions)
+ (:objects d1 - dog c1 - animal)
+ (:init (fed d1))
+ (:goal (and (done1) (done2)))
+)
+""" % (q, first)
+            out.append(("corpus:zoo-%s-%s-first" % (q, first), dom, prob))
+    return out
